@@ -215,8 +215,6 @@ structure Adv (mf : Nat) (dia : Dialect) (s s1 : BS) (fix : Bool) (c' : CU) : Pr
   rem : s.remaining = s.get s.sb.next :: s1.remaining
   last : s1.get s.sb.next = c'
   tvoff : s1.sb.tvalueOffset = s.sb.tvalueOffset
-  line : s1.line = s.line
-  tvlen : s1.tvlen = s.tvlen
   limit : s1.sb.limit = s.sb.limit
   next : s1.sb.next = s.sb.next + 1
   textStart : s1.sb.textStart = s.sb.textStart
@@ -224,20 +222,37 @@ structure Adv (mf : Nat) (dia : Dialect) (s s1 : BS) (fix : Bool) (c' : CU) : Pr
   src : s1.src = s.src
   fs : s1.fs = s.fs
 
+/-- `Good`, `text`, `remaining` look at the buffer, the fill flags and the source only -/
+theorem Good.congr {mf : Nat} {s s' : BS} (g : Good mf s) (h1 : s'.sb = s.sb) (h2 : s'.fs = s.fs) (h3 : s'.src = s.src) : Good mf s' :=
+  ⟨by rw [h1]; exact g.inv, by rw [h1]; exact g.size, g.mf, by rw [h3]; exact g.ok, by rw [h2, h3]; exact g.eof⟩
+
+theorem text_congr {s s' : BS} (h1 : s'.sb = s.sb) : s'.text = s.text := by simp [BS.text, h1]
+theorem remaining_congr {s s' : BS} (h1 : s'.sb = s.sb) (h2 : s'.fs = s.fs) (h3 : s'.src = s.src) : s'.remaining = s.remaining := by
+  simp [BS.remaining, h1, h2, h3]
+theorem measure_congr {s s' : BS} (h1 : s'.sb = s.sb) (h2 : s'.fs = s.fs) (h3 : s'.src = s.src) : s'.measure = s.measure := by
+  simp [BS.measure, BS.remaining, h1, h2, h3]
+
+theorem Adv.congr {mf : Nat} {dia : Dialect} {s s1 s1' : BS} {fix : Bool} {c' : CU} (a : Adv mf dia s s1 fix c')
+    (h1 : s1'.sb = s1.sb) (h2 : s1'.fs = s1.fs) (h3 : s1'.src = s1.src) : Adv mf dia s s1' fix c' :=
+  ⟨a.good.congr h1 h2 h3, by rw [text_congr h1]; exact a.text, by rw [remaining_congr h1 h2 h3]; exact a.rem,
+   by simp only [BS.get, h1]; exact a.last, by rw [h1]; exact a.tvoff, by rw [h1]; exact a.limit, by rw [h1]; exact a.next,
+   by rw [h1]; exact a.textStart, by rw [h1]; exact a.tvalueStart, by rw [h3]; exact a.src, by rw [h2]; exact a.fs⟩
+
 theorem Adv.measure {mf : Nat} {dia : Dialect} {s s1 : BS} {fix : Bool} {c' : CU} (a : Adv mf dia s s1 fix c') :
     s1.measure + 1 = s.measure := by
   simp only [BS.measure, a.rem, a.src, List.length_cons]; omega
 
 theorem stepU_adv (mf : Nat) (dia : Dialect) (s : BS) (u : UStep) (g : Good mf s) (hn : s.sb.next < s.sb.limit)
     (hfix : u.fixPrev = true → s.sb.textStart < s.sb.next) :
-    Adv mf dia s (stepU dia s u) u.fixPrev u.c ∧ (stepU dia s u).col = u.col ∧ (stepU dia s u).ttype = s.ttype := by
+    Adv mf dia s (stepU dia s u) u.fixPrev u.c ∧ (stepU dia s u).col = u.col ∧
+    ((stepU dia s u).ttype = s.ttype ∧ (stepU dia s u).line = s.line ∧ (stepU dia s u).tvlen = s.tvlen) := by
   obtain ⟨h1, h2, h3, h4, h5⟩ := g.inv
   refine ⟨?_, rfl, ?_⟩
   · by_cases hf : u.fixPrev = true
     · have hts := hfix hf
       simp only [stepU, hf, if_true]
       refine ⟨⟨⟨h1, by show s.sb.tvalueStart ≤ s.sb.next + 1; omega, by show s.sb.next + 1 ≤ s.sb.limit; omega, h4, ?_⟩, g.size, g.mf, g.ok, g.eof⟩,
-        ?_, ?_, ?_, rfl, rfl, rfl, rfl, rfl, rfl, rfl, rfl, rfl⟩
+        ?_, ?_, ?_, rfl, rfl, rfl, rfl, rfl, rfl, rfl⟩
       · show ((s.sb.buffer.set (s.sb.next - 1) (replChar dia)).set s.sb.next u.c).length = s.sb.size
         simp [h5]
       · show ((((s.sb.buffer.set (s.sb.next - 1) (replChar dia)).set s.sb.next u.c).drop s.sb.textStart).take (s.sb.next + 1 - s.sb.textStart))
@@ -251,7 +266,7 @@ theorem stepU_adv (mf : Nat) (dia : Dialect) (s : BS) (u : UStep) (g : Good mf s
         exact getD_set_self _ _ _ (by simp; omega)
     · simp only [stepU, hf, if_false, Bool.false_eq_true]
       refine ⟨⟨⟨h1, by show s.sb.tvalueStart ≤ s.sb.next + 1; omega, by show s.sb.next + 1 ≤ s.sb.limit; omega, h4, ?_⟩, g.size, g.mf, g.ok, g.eof⟩,
-        ?_, ?_, ?_, rfl, rfl, rfl, rfl, rfl, rfl, rfl, rfl, rfl⟩
+        ?_, ?_, ?_, rfl, rfl, rfl, rfl, rfl, rfl, rfl⟩
       · show (s.sb.buffer.set s.sb.next u.c).length = s.sb.size
         simp [h5]
       · show (((s.sb.buffer.set s.sb.next u.c).drop s.sb.textStart).take (s.sb.next + 1 - s.sb.textStart))
@@ -265,12 +280,18 @@ theorem stepU_adv (mf : Nat) (dia : Dialect) (s : BS) (u : UStep) (g : Good mf s
         exact getD_set_self _ _ _ (by omega)
   · by_cases hf : u.fixPrev = true <;> simp [stepU, hf, BS.setNext, BS.setBuf]
 
+theorem stepU_col (dia : Dialect) (s : BS) (u : UStep) : (stepU dia s u).col = u.col := rfl
+theorem stepU_line (dia : Dialect) (s : BS) (u : UStep) : (stepU dia s u).line = s.line := by
+  by_cases hf : u.fixPrev = true <;> simp [stepU, hf, BS.setNext, BS.setBuf]
+theorem stepU_tvlen (dia : Dialect) (s : BS) (u : UStep) : (stepU dia s u).tvlen = s.tvlen := by
+  by_cases hf : u.fixPrev = true <;> simp [stepU, hf, BS.setNext, BS.setBuf]
+
 /-- `next_char += 1` without touching the buffer (scan_ws, the colon / third delimiter) -/
 theorem setNext_adv (mf : Nat) (dia : Dialect) (s : BS) (g : Good mf s) (hn : s.sb.next < s.sb.limit) :
     Adv mf dia s (s.setNext (s.sb.next + 1)) false (s.get s.sb.next) := by
   obtain ⟨h1, h2, h3, h4, h5⟩ := g.inv
   refine ⟨⟨⟨h1, by show s.sb.tvalueStart ≤ s.sb.next + 1; omega, by show s.sb.next + 1 ≤ s.sb.limit; omega, h4, h5⟩, g.size, g.mf, g.ok, g.eof⟩,
-        ?_, ?_, rfl, rfl, rfl, rfl, rfl, rfl, rfl, rfl, rfl, rfl⟩
+        ?_, ?_, rfl, rfl, rfl, rfl, rfl, rfl, rfl, rfl⟩
   · show ((s.sb.buffer.drop s.sb.textStart).take (s.sb.next + 1 - s.sb.textStart))
         = ((s.sb.buffer.drop s.sb.textStart).take (s.sb.next - s.sb.textStart)) ++ [s.sb.buffer.getD s.sb.next 0]
     exact slice_snoc _ _ _ (by omega) (by omega)
